@@ -13,7 +13,7 @@ use futures_intrusive::channel::{GenericChannel, StateId};
 use futures_intrusive::sync::{GenericManualResetEvent, GenericMutex, GenericSemaphore};
 use futures_intrusive::timer::{GenericTimerService, Timer};
 use futures_intrusive::verif::Snapshot;
-use shuttle::future::block_on;
+use super::block_on;
 use shuttle::rand::{thread_rng, Rng as _};
 use shuttle::thread;
 use std::future::Future;
